@@ -87,11 +87,11 @@ theorem noSyl_commitOrInsert (sh : Shared D L) (ch : Nat) : NoSyl (commitOrInser
   · exact noSyl_withCom_absorb _ _
 
 theorem noSyl_inputChar (sh : Shared D L) (ev : KeyEvent) : NoSyl (inputChar sh ev) := by
-  unfold inputChar fullOrPanic
+  unfold inputChar fullOrBell
   repeat' split
   all_goals first
     | exact noSyl_commitOrInsert _ _
-    | exact noSyl_panic _
+    | nosyl_leaf
 
 theorem noSyl_chineseFallback (sh : Shared D L) (ev : KeyEvent) : NoSyl (chineseFallback sh ev) := by
   unfold chineseFallback
@@ -332,11 +332,11 @@ theorem sylIs_commitOrInsert (sh : Shared D L) (ch : Nat) : SylIs sh.syl (commit
   · exact sylIs_withCom_absorb _ _
 
 theorem sylIs_inputChar (sh : Shared D L) (ev : KeyEvent) : SylIs sh.syl (inputChar sh ev) := by
-  unfold inputChar fullOrPanic
+  unfold inputChar fullOrBell
   repeat' split
   all_goals first
     | exact sylIs_commitOrInsert _ _
-    | exact sylIs_panic _ _
+    | sylis_leaf
 
 theorem sylIs_chineseFallback (sh : Shared D L) (ev : KeyEvent) : SylIs sh.syl (chineseFallback sh ev) := by
   unfold chineseFallback
